@@ -246,6 +246,15 @@ func C14(p *Prog, r *Run) {
 	// Depth(0, cap) over all outputs (MaxActivationDepthWithCap; MaxActivationDepth when the search is written out or
 	// expanded in it). capOK judges the cap handed to the depth queries; given, when not nil, are the return
 	// alternatives to examine (otherwise all of mx).
+	relays := map[*ssa.MakeSlice]*c14Relay{}
+	relayOf := func(fn *ssa.Function, ms *ssa.MakeSlice) *c14Relay {
+		if rl, ok := relays[ms]; ok {
+			return rl
+		}
+		rl := c14AnalyseRelay(fn, ms, &r.PathsExplored)
+		relays[ms] = rl
+		return rl
+	}
 	maxOverOutputs := func(mx *ssa.Function, pfx string, capOK func(v ssa.Value, t *Term) bool, capWhat string, given []*c14RetCase) {
 		r.Fn(FuncName(mx))
 		tmx := NewTermer(mx)
@@ -276,7 +285,26 @@ func C14(p *Prog, r *Run) {
 			r.Check(examined, pfx+".err", p.Pos(c.Pos()), "the error of the depth query is examined", "the error of the depth query of an output is ignored: a depth-exceeded result (the cap) is taken as the depth")
 			if ex != nil {
 				op, acc, ok := foldsAsMax(ex)
-				r.Check(ok && (op == token.GTR || op == token.GEQ), pfx+".fold", p.Pos(c.Pos()), "maximum over the outputs", fmt.Sprintf("depths of the outputs are not folded as a maximum (found=%v op=%s)", ok, op))
+				relayWhy := ""
+				if !ok {
+					// collect-then-fold: the depth is parked in the slot of this output in a local slice, and a later loop
+					// that reads every slot folds what it finds there (robust_c14.go, c14Relay: the values read are exactly
+					// the depths of the outputs queried, plus zeros - the value the maximum starts from)
+					if ms := c14RelayStoredIn(ex); ms != nil {
+						rl := relayOf(mx, ms)
+						switch {
+						case rl.Why != "":
+							relayWhy = "; the depth is stored into a local slice that does not carry it to a fold: " + rl.Why
+						case rl.Src != ex:
+							relayWhy = "; the local slice the depth is stored into carries another value"
+						case len(rl.Loads) != 1:
+							relayWhy = "; the local slice the depth is stored into is read at more than one place"
+						default:
+							op, acc, ok = foldsAsMax(rl.Loads[0])
+						}
+					}
+				}
+				r.Check(ok && (op == token.GTR || op == token.GEQ), pfx+".fold", p.Pos(c.Pos()), "maximum over the outputs", fmt.Sprintf("depths of the outputs are not folded as a maximum (found=%v op=%s)%s", ok, op, relayWhy))
 				if ok {
 					init := false
 					for _, e := range acc.Edges {
@@ -342,6 +370,11 @@ func C14(p *Prog, r *Run) {
 				}
 			} else if depthResult(v, 0) != nil {
 				okV = true
+			} else if ms := c14RelaySliceOf(v); ms != nil {
+				// an element of a local slice that holds nothing but depths reported by queries of this call (or the
+				// zero it was made with, the initial value of the running maximum)
+				rl := relayOf(mx, ms)
+				okV = rl.Why == "" && depthResult(rl.Src, 0) != nil
 			}
 			if !okV {
 				r.Bad(pfx+".result-origin", p.Pos(rc.Ret.Pos()), mx.Name()+" can return "+TX(v).String()+", which is neither the shortcut, the running maximum over the outputs nor the result of a Depth query of this call (a stored value ignores the cap and the current topology)")
